@@ -1,10 +1,191 @@
 import BFL.Driver.Proto
-/- Driver entries of this group (stub: no operation handled yet). -/
+import BFL.Model.History
+import BFL.Model.Extract
+/-
+Driver entries for C17 (estimate extraction and its history buffer).
+
+  hb <dim> <nops> {op}        buffer-only state machine on `HistBuf (List String)` (elements are opaque tokens)
+       op :=  A tok×dim | S <unsigned> | D | I | C | G
+     -> per op, separated by `|`:  `<tag> <flag> <window>`   and for G: `G <cols> tok…` (newest first)
+
+  ee <lin> <circ> <ncalls> {call}    the `EstimatesExtraction` state machine over `Float`
+       call := M <0..11> | W <int> | C | V
+             | X <N> particles(cm, (lin+circ)×N) weights(N)
+             | Y <N> <K> particles weights(N) prev_weights(K) likelihoods(N) transition(cm, N×K)
+     -> per call, separated by `|`:  `<tag> <flag> <window> [est…] [t:… branch tags] [v:… map values]`
+
+  eew <k>                     the three weight vectors for history length k (Float), for the weight oracle
+-/
 namespace BFL.DriverExtract
-open BFL BFL.Proto
+open BFL BFL.Proto BFL.Extract
+
+instance instNatCastFloat : NatCast Float := ⟨Float.ofNat⟩
+
+/-- `std::numeric_limits<double>::min()` -/
+def dblMin : Float := Float.ofBits 0x0010000000000000
+
+def int : R Int := do
+  let t ← tok
+  match t.toInt? with
+  | some n => pure n
+  | none => failure
+
+/-! ### buffer only -/
+
+def hbOps (dim : Nat) : Nat → R (List (String × Option (HistBuf.Op (List String))))
+  | 0 => pure []
+  | n + 1 => do
+    let t ← tok
+    let op ← match t with
+      | "A" => do let x ← listOf dim tok; pure (some (HistBuf.Op.add x))
+      | "S" => do let w ← nat; pure (some (HistBuf.Op.set w))
+      | "D" => pure (some HistBuf.Op.dec)
+      | "I" => pure (some HistBuf.Op.inc)
+      | "C" => pure (some HistBuf.Op.clear)
+      | "G" => pure none
+      | _ => failure
+    let rest ← hbOps dim n
+    pure ((t, op) :: rest)
+
+def hbFlag (h : HistBuf (List String)) : HistBuf.Op (List String) → Bool
+  | .add _ => true
+  | .set w => (h.setWindow w).2
+  | .dec => h.decrease.2
+  | .inc => h.increase.2
+  | .clear => h.clear.2
+
+def hb : R String := do
+  let dim ← nat; let n ← nat
+  let ops ← hbOps dim n
+  done
+  let mut h : HistBuf (List String) := HistBuf.init
+  let mut outs : Array String := #[]
+  for (t, op) in ops do
+    match op with
+    | none =>
+      outs := outs.push (join (["G", toString h.items.length] ++ h.items.flatten))
+    | some o =>
+      let f := hbFlag h o
+      h := HistBuf.step h o
+      outs := outs.push (join [t, if f then "1" else "0", toString h.window])
+  pure (" | ".intercalate outs.toList)
+
+/-! ### EstimatesExtraction -/
+
+def methodOfNat : Nat → Option Method
+  | 0 => some .mean | 1 => some .smean | 2 => some .wmean | 3 => some .emean
+  | 4 => some .mode | 5 => some .smode | 6 => some .wmode | 7 => some .emode
+  | 8 => some .map | 9 => some .smap | 10 => some .wmap | 11 => some .emap
+  | _ => none
+
+/-- columns of a column-major token block -/
+def colsCM (r c : Nat) : R (List (List Float)) := listOf c (listOf r flt)
+
+def readCall (lin circ : Nat) : R (String × Call Float) := do
+  let t ← tok
+  match t with
+  | "M" => do
+    let k ← nat
+    match methodOfNat k with
+    | some m => pure (t, .setMethod m)
+    | none => failure
+  | "W" => do let n ← int; pure (t, .setWindow n)
+  | "C" => pure (t, .clear)
+  | "V" => pure (t, .move)
+  | "X" => do
+    let n ← nat
+    let ps ← colsCM (lin + circ) n
+    let ws ← listOf n flt
+    pure (t, .extract2 { ps := ps, ws := ws })
+  | "Y" => do
+    let n ← nat; let k ← nat
+    let ps ← colsCM (lin + circ) n
+    let ws ← listOf n flt
+    let pw ← listOf k flt
+    let lik ← listOf n flt
+    let tpCols ← colsCM n k
+    -- rows of the transition matrix
+    let tp := (List.range n).map fun i => tpCols.map fun col => col.getD i 0
+    pure (t, .extract5 { ps := ps, ws := ws, pw := pw, lik := lik, tp := tp })
+  | _ => failure
+
+def readCalls (lin circ : Nat) : Nat → R (List (String × Call Float))
+  | 0 => pure []
+  | n + 1 => do
+    let c ← readCall lin circ
+    let rest ← readCalls lin circ n
+    pure (c :: rest)
+
+/-- branch tags of a call in a state (for the coverage histogram of the check) -/
+def tags (s : EE Float) (c : Call Float) : List String :=
+  let ex (a : Args Float) (five : Bool) : List String :=
+    let st := s.method.stat
+    let fam := s.method.fam
+    let stS := match st with | .mean => "mean" | .mode => "mode" | .map => "map"
+    let famS := match fam with | none => "plain" | some .simple => "simple" | some .weighted => "weighted" | some .exponential => "exponential"
+    let unavailable := (!five) && st == .map
+    let pushes := !unavailable && fam.isSome
+    let hl := s.hist.items.length
+    let full := pushes && hl + 1 > s.hist.window
+    let k := if full then hl else hl + 1
+    let recomputed := match fam with
+      | some f => pushes && (s.cached f).length != k
+      | none => false
+    let oneCol := (pushes && k == 1 && s.circ > 0) || (st == .mean && !unavailable && a.ps.length == 1 && s.circ > 0)
+    ["t:" ++ (if five then "x5" else "x2") ++ ":" ++ stS ++ ":" ++ famS] ++
+    (if unavailable then ["t:unavailable"] else []) ++
+    (if pushes then [if full then "t:push-full" else "t:push-room"] else []) ++
+    (if pushes then [if recomputed then "t:weights-recomputed" else "t:weights-cached"] else []) ++
+    (if oneCol then ["t:one-column-shortcut"] else []) ++
+    (if s.lin == 0 then ["t:lin0"] else []) ++ (if s.circ == 0 then ["t:circ0"] else [])
+  match c with
+  | .extract2 a => ex a false
+  | .extract5 a => ex a true
+  | .setWindow n =>
+    if n ≤ 0 then ["t:win-rejected"]
+    else if n.toNat = s.hist.window then ["t:win-same"]
+    else
+      let tmp := HistBuf.clampWindow n.toNat
+      [if n.toNat < 2 then "t:win-clamp-low" else if n.toNat ≥ 30 then "t:win-clamp-high" else "t:win-plain"] ++
+      [if tmp < s.hist.window ∧ tmp < s.hist.items.length then "t:win-shrinks-content" else "t:win-keeps-content"]
+  | _ => []
+
+def mapVals (c : Call Float) (s : EE Float) : List String :=
+  match c with
+  | .extract5 a =>
+    if s.method.stat == .map then (mapValues dblMin a.pw a.lik a.tp).map fun v => "v:" ++ floatStr v else []
+  | _ => []
+
+def ee : R String := do
+  let lin ← nat; let circ ← nat; let n ← nat
+  let calls ← readCalls lin circ n
+  done
+  let mut s : EE Float := EE.init lin circ
+  let mut outs : Array String := #[]
+  for (t, c) in calls do
+    let tg := tags s c
+    let mv := mapVals c s
+    let r := step dblMin s c
+    s := r.1
+    let est := match r.2.est with
+      | some e => e.map floatStr
+      | none => []
+    outs := outs.push (join ([t, if r.2.flag then "1" else "0", toString s.hist.window] ++ est ++ tg ++ mv))
+  pure (" | ".intercalate outs.toList)
+
+def eew : R String := do
+  let k ← nat
+  done
+  let sm : List Float := smWeights k
+  let wm : List Float := wmWeights k
+  let em : List Float := emWeights k
+  pure (join (["ok"] ++ sm.map floatStr ++ wm.map floatStr ++ em.map floatStr))
 
 def handle (op : String) (args : List String) : Option String :=
   match op with
+  | "hb" => some ((run hb args).getD "bad-args")
+  | "ee" => some ((run ee args).getD "bad-args")
+  | "eew" => some ((run eew args).getD "bad-args")
   | _ => none
 
 end BFL.DriverExtract
